@@ -87,3 +87,9 @@ Proof.
   - eapply SRStep; [apply SRNil|]. eapply (SStep nat nat _ _ _ 1); cbn; reflexivity.
   - cbn. discriminate.
 Qed.
+
+(* the C glue functions reached by the listed operations keep no mutable static scratch storage *)
+From V Require Generated.Guards Proofs.CStaticProofs.
+Theorem C19_c_glue_has_no_static_scratch : Guards.c_static_mutable_locals = nil.
+Proof. exact CStaticProofs.c_glue_has_no_static_scratch. Qed.
+Print Assumptions C19_c_glue_has_no_static_scratch.
